@@ -45,9 +45,18 @@ def _run(ctx, e2e):
         if not ctx.mine(i, case_id):
             continue
         _one(ctx, e2e, i, rng, interp, system, tmin, dt, comp, case_id)
+    # size is an input dimension too: a fine temperature grid from T=0 (hundreds of rows below 10 K) on a many-mode spectrum,
+    # so that every (T,V,q,mode) array is large (quick: one configuration with 40 MB arrays; thorough: four with 280 MB arrays)
+    for j in range(ctx.pick(1, 4)):
+        case_id = f"large{j}"
+        if not ctx.mine(10 ** 6 + 7 * j + 3, case_id):
+            continue
+        rng = ctx.rng("large", j)
+        _one(ctx, e2e, 10 ** 6 + j, rng, ["lsq_poly", "spline", "pchip", "krogh"][j], laue.SYSTEMS[(3 * j + 1) % 9], 0.0, [0.5, 0.25, 1.0, 0.5][j],
+             "needed", case_id, large=True)
 
 
-def _one(ctx, e2e, i, rng, interp, system, tmin, dt, comp, case_id):
+def _one(ctx, e2e, i, rng, interp, system, tmin, dt, comp, case_id, large=False):
     if True:
         nv = int(rng.integers(4, 13))
         orders = WF.admissible_orders(interp, nv)
@@ -56,13 +65,15 @@ def _one(ctx, e2e, i, rng, interp, system, tmin, dt, comp, case_id):
         order = orders[(i // 7) % len(orders)]
         data_class = "power-law" if (interp != "lsq_poly" or order < 2) else ["power-law", "poly2", "poly3"][min(order, 3) - 1 if i % 2 else 0]
         use_system = comp != "no-symmetry-all-21"
-        ds = WF.gen_dataset(rng, system=system if use_system else "triclinic", nv=nv, nq=int(rng.integers(1, 5)), natoms=int(rng.integers(1, 5)),
+        ds = WF.gen_dataset(rng, system=system if use_system else "triclinic", nv=nv, nq=ctx.pick(4, 6) if large else int(rng.integers(1, 5)),
+                            natoms=ctx.pick(10, 12) if large else int(rng.integers(1, 5)),
                             data_class=data_class, components="all-nonzero" if comp != "needed" else "needed")
-        cfg = WF.gen_settings(rng, ds, interpolator=interp, order=order, tmin=tmin, dt=dt, nt=int(rng.integers(2, 13)), ntv=int(rng.integers(8, 41)),
+        cfg = WF.gen_settings(rng, ds, interpolator=interp, order=order, tmin=tmin, dt=dt, nt=ctx.pick(996, 1996) if large else int(rng.integers(2, 13)),
+                              ntv=ctx.pick(40, 81) if large else int(rng.integers(8, 41)),
                               use_system=use_system)
         wd = e2e.workdir(case_id)
         path = WF.write_dataset(ds, cfg, wd)
-        cls = f"{interp}|T_MIN={tmin:g},DT={dt:g}|{comp}"
+        cls = f"{interp}|T_MIN={tmin:g},DT={dt:g}|{comp}" + ("|large-grid" if large else "")
         sample = {"interpolator": interp, "order": order, "system": ds.system if use_system else None, "T_MIN": tmin, "DT": dt,
                   "NT": cfg["qha"]["settings"]["NT"], "NTV": cfg["qha"]["settings"]["NTV"], "volumes": nv, "nq": ds.nq, "atoms": ds.natoms,
                   "components_in_table": ["c%d%d" % T.VOIGT21[n] for n in ds.columns], "data": data_class}
@@ -90,7 +101,7 @@ def _one(ctx, e2e, i, rng, interp, system, tmin, dt, comp, case_id):
         _judge(ctx, calc, cls, interp, case_id, sample)
         # ---- the same data again in the same process on another temperature grid of the same shape: anything kept from the
         #      first calculation (memoised Bose factors, grids, fits) must not be reused for different temperatures
-        if i % 3 == 0:
+        if i % 3 == 0 and not large:
             import copy
             cfg2 = copy.deepcopy(cfg)
             q2 = cfg2["qha"]["settings"]
